@@ -69,6 +69,7 @@ def fork_call(fn, arg, timeout=None):
             try:
                 _child_prepare()
                 res = _call_in_fresh_thread(fn, arg)
+                faulthandler.cancel_dump_traceback_later()      # the run is over: never kill a child that is answering
                 data = json.dumps({"ok": res}, default=repr).encode()
             except BaseException:
                 data = json.dumps({"harness_error": traceback.format_exc()[-4000:]}).encode()
@@ -83,7 +84,8 @@ def fork_call(fn, arg, timeout=None):
             os._exit(code)
     os.close(w)
     chunks = []
-    deadline = time.monotonic() + timeout
+    t_start = time.monotonic()
+    deadline = t_start + timeout + 5.0        # (the in-child watchdog fires first; this is the backstop)
     timed_out = False
     try:
         while True:
@@ -108,7 +110,7 @@ def fork_call(fn, arg, timeout=None):
     _, status = os.waitpid(pid, 0)
     if timed_out:
         raise HarnessError("child timed out after %.0fs" % timeout)
-    if status == 256 and not chunks:
+    if status == 256 and (not chunks or time.monotonic() - t_start >= timeout - 2.0):
         # faulthandler.dump_traceback_later(..., exit=True) fired inside the child just before our own deadline
         raise HarnessError("child timed out (in-child watchdog) after %.0fs" % timeout)
     if status != 0:
